@@ -24,24 +24,33 @@ GCD(a, b) == GCDn(Abs(a), Abs(b))
 RECURSIVE SumTo(_, _)
 SumTo(f, k) == IF k = 0 THEN 0 ELSE f[k] + SumTo(f, k - 1)
 
+\* <<F(1), ..., F(k)>> as an explicit tuple (TLC evaluates it once; a function constructor
+\* [i \in 1..k |-> F(i)] would be re-evaluated at every application)
+RECURSIVE Tuple(_, _)
+Tuple(F(_), k) == IF k = 0 THEN <<>> ELSE Append(Tuple(F, k - 1), F(k))
+
 (****************************** determinants *******************************)
 \* Mx: square matrix as a sequence of rows.  Laplace expansion along row 1.
-Minor1(Mx, j) == [i \in 1 .. Len(Mx) - 1 |->
-                    [k \in 1 .. Len(Mx) - 1 |-> Mx[i + 1][IF k < j THEN k ELSE k + 1]]]
+Minor1(Mx, j) == LET row(i) == LET e(k) == Mx[i + 1][IF k < j THEN k ELSE k + 1] IN Tuple(e, Len(Mx) - 1)
+                 IN Tuple(row, Len(Mx) - 1)
 RECURSIVE Det(_)
 Det(Mx) ==
     CASE Len(Mx) = 0 -> 1
       [] Len(Mx) = 1 -> Mx[1][1]
       [] Len(Mx) = 2 -> Mx[1][1] * Mx[2][2] - Mx[1][2] * Mx[2][1]
+      [] Len(Mx) = 3 -> Mx[1][1] * (Mx[2][2] * Mx[3][3] - Mx[2][3] * Mx[3][2])
+                        - Mx[1][2] * (Mx[2][1] * Mx[3][3] - Mx[2][3] * Mx[3][1])
+                        + Mx[1][3] * (Mx[2][1] * Mx[3][2] - Mx[2][2] * Mx[3][1])
       [] OTHER -> SumTo([j \in 1 .. Len(Mx) |->
                            (IF j % 2 = 1 THEN 1 ELSE -1) * Mx[1][j] * Det(Minor1(Mx, j))], Len(Mx))
 
 \* columns B (sequence of column indices) of the m x n matrix A, as an m x |B| matrix
-ColsOf(A, B) == [i \in 1 .. Len(A) |-> [k \in 1 .. Len(B) |-> A[i][B[k]]]]
+ColsOf(A, B) == LET row(i) == LET e(k) == A[i][B[k]] IN Tuple(e, Len(B)) IN Tuple(row, Len(A))
 \* column j of A as a vector
-ColOf(A, j) == [i \in 1 .. Len(A) |-> A[i][j]]
+ColOf(A, j) == LET e(i) == A[i][j] IN Tuple(e, Len(A))
 \* Mx with column k replaced by the vector v
-ReplaceCol(Mx, k, v) == [i \in 1 .. Len(Mx) |-> [j \in 1 .. Len(Mx[i]) |-> IF j = k THEN v[i] ELSE Mx[i][j]]]
+ReplaceCol(Mx, k, v) == LET row(i) == LET e(j) == IF j = k THEN v[i] ELSE Mx[i][j] IN Tuple(e, Len(Mx[i]))
+                        IN Tuple(row, Len(Mx))
 
 \* strictly increasing sequences of length m over 1..n
 IncSeqs(n, m) == {s \in [1 .. m -> 1 .. n] : \A i \in 1 .. m - 1 : s[i] < s[i + 1]}
@@ -63,26 +72,41 @@ RMin(S) == CHOOSE p \in S : \A q \in S : RLeq(p, q)
 \*   feas     the basic solution exists and is non-negative
 \*   degen    some basic variable is zero
 \*   cnum     det * (cost of the basic solution)
-\*   rn[j]    det * (reduced cost of column j)   ( = 0 for basic j )
-\*   dn[j][k] det * (k-th component of  B^-1 A_j)
+\*   optcert  B is primal and dual feasible (all reduced costs >= 0)
+\*   ray      B is feasible and some column j has r_j < 0 and B^-1 A_j <= 0
 BasisInfo(P, B) ==
     LET m == Len(P.A)
         n == Len(P.c)
         MB == ColsOf(P.A, B)
         d == Det(MB)
-        xs == [k \in 1 .. m |-> Det(ReplaceCol(MB, k, P.b))]
-        dn == [j \in 1 .. n |-> [k \in 1 .. m |-> Det(ReplaceCol(MB, k, ColOf(P.A, j)))]]
-        rn == [j \in 1 .. n |-> P.c[j] * d - SumTo([k \in 1 .. m |-> P.c[B[k]] * dn[j][k]], m)]
+        \* Cramer numerators of the solution y of  MB y = v :  d * y[k]
+        Cramer(v) == LET num(k) == Det(ReplaceCol(MB, k, v)) IN Tuple(num, m)
+        xs == Cramer(P.b)
+        feas == d # 0 /\ \A k \in 1 .. m : Sign(xs[k]) * Sign(d) >= 0
+        \* per column j:  dn = d * B^-1 A_j,  rn = d * (reduced cost of j)
+        column(j) == LET dn == Cramer(ColOf(P.A, j))
+                     IN [dn |-> dn, rn |-> P.c[j] * d - SumTo([k \in 1 .. m |-> P.c[B[k]] * dn[k]], m)]
+        cols == Tuple(column, n)
+        \* reduced costs all >= 0  (the basis is dual feasible)
+        dual == d # 0 /\ \A j \in 1 .. n : Sign(cols[j].rn) * Sign(d) >= 0
     IN [B |-> B, det |-> d, xs |-> xs,
-        feas |-> d # 0 /\ \A k \in 1 .. m : Sign(xs[k]) * Sign(d) >= 0,
+        feas |-> feas,
         degen |-> \E k \in 1 .. m : xs[k] = 0,
         cnum |-> SumTo([k \in 1 .. m |-> P.c[B[k]] * xs[k]], m),
-        \* reduced costs all >= 0  (the basis is dual feasible)
-        dualfeas |-> d # 0 /\ \A j \in 1 .. n : Sign(rn[j]) * Sign(d) >= 0,
-        \* an improving unbounded edge leaves this basic solution: r_j < 0 and B^-1 A_j <= 0
-        ray |-> d # 0 /\ \E j \in (1 .. n) \ Range(B) :
-                    /\ Sign(rn[j]) * Sign(d) < 0
-                    /\ \A k \in 1 .. m : Sign(dn[j][k]) * Sign(d) <= 0]
+        \* primal and dual feasible: an optimality certificate
+        optcert |-> feas /\ dual,
+        \* an improving unbounded edge leaves this basic feasible solution: r_j < 0 and B^-1 A_j <= 0
+        ray |-> feas /\ \E j \in (1 .. n) \ Range(B) :
+                    /\ Sign(cols[j].rn) * Sign(d) < 0
+                    /\ \A k \in 1 .. m : Sign(cols[j].dn[k]) * Sign(d) <= 0]
+
+\* dual feasibility of an arbitrary (not necessarily primal feasible) basis; used by theorem WeakDuality only
+DualFeasible(P, B) ==
+    LET m == Len(P.A)
+        MB == ColsOf(P.A, B)
+        d == Det(MB)
+        rn(j) == P.c[j] * d - SumTo([k \in 1 .. m |-> P.c[B[k]] * Det(ReplaceCol(MB, k, ColOf(P.A, j)))], m)
+    IN d # 0 /\ \A j \in 1 .. Len(P.c) : Sign(rn(j)) * Sign(d) >= 0
 
 (************************ bounded spaces of integer data *********************)
 \* rad: sequence of radices; a case index k is turned into Len(rad) digits, digit i in 0 .. rad[i]-1.
@@ -108,8 +132,8 @@ ZeroCol(P) == \E j \in 1 .. Len(P.c) : \A i \in 1 .. Len(P.A) : P.A[i][j] = 0
 \* The four classes are stated independently of each other (TLC checks that exactly one holds):
 IsSingular(infos)   == \A I \in infos : I.det = 0                       \* rank A < m
 IsInfeasible(infos) == (\E I \in infos : I.det # 0) /\ (\A I \in infos : ~I.feas)
-IsUnbounded(infos)  == \E I \in infos : I.feas /\ I.ray                  \* a feasible vertex with an improving ray
-IsOptimal(infos)    == \E I \in infos : I.feas /\ I.dualfeas             \* a primal and dual feasible basis
+IsUnbounded(infos)  == \E I \in infos : I.ray                  \* a feasible vertex with an improving ray
+IsOptimal(infos)    == \E I \in infos : I.optcert             \* a primal and dual feasible basis
 
 Costs(infos) == {Rat(I.cnum, I.det) : I \in {J \in infos : J.feas}}
 \* the true optimum of a program that is not unbounded: the least cost over ALL feasible bases
